@@ -75,6 +75,7 @@ func runC10(c *Ctx) {
 	R.Rule("close-pairing", "Unsub closes exactly the channel it splices out; UnsubAll closes all and clears; no other close", 3)
 	R.Rule("timeout-dichotomy", "every sending helper either calls SendTimeout itself and calls the hook exactly when it returned false and the hook is set, once, with the event, or hands its own event, channel, timeout and hook on to one that does", 2)
 	R.Rule("send-reports", "SendTimeout (the helper every publish variant sends through) returns true exactly on the paths that performed the one send", 1)
+	R.Rule("hook-outside-exclusive-lock", "the user's timeout hook (and any other function value) is called while no exclusive lock of the PubSub is held: a hook that publishes or unsubscribes on the same PubSub - which the API invites - would wait for a lock its own caller holds", 1)
 	R.Rule("lock-pairing", "on every path each Lock/RLock of the PubSub mutex is released by the matching Unlock/RUnlock before the function returns; nothing is released that is not held; no nested acquisition", 10)
 	R.Rule("sub-index", "subIndex scans the whole list, returns i where subs[i] == sub, and -1 after the scan", 1)
 	R.Rule("error-table", "Unsub: nil -> ErrSubscriptionNotInitalized, not found -> ErrAlreadyUnsubscribed, found -> nil; state untouched on the error rows", 1)
@@ -109,6 +110,51 @@ func runC10(c *Ctx) {
 	x.errorTable()
 	x.withOnly()
 	x.subAppends()
+	x.hookOutsideExclusiveLock()
+}
+
+// ---- hook-outside-exclusive-lock ---------------------------------------------------------
+
+// hookOutsideExclusiveLock: every call of a function value (the OnPubTimeout hook arrives as a parameter or is read
+// from the PubSub) in a method of PubSub happens with no sync.Mutex and no write-locked sync.RWMutex held - of
+// whatever field, also one added later. Read locks are shared, so a re-entrant publish passes them.
+func (x *c10) hookOutsideExclusiveLock() {
+	c := x.c
+	rule := "hook-outside-exclusive-lock"
+	for _, fi := range x.funcs {
+		ok, why := true, ""
+		calls := 0
+		for _, p := range x.paths[fi] {
+			held := map[string]string{} // mutex address -> lock call name
+			for i := range p.Events {
+				e := &p.Events[i]
+				if e.Kind == "call" && len(e.Args) >= 1 && e.Args[0] != nil {
+					k := e.Args[0].Key()
+					switch e.Name {
+					case "sync.(*Mutex).Lock", "sync.(*RWMutex).Lock":
+						if !e.Deferred {
+							held[k] = e.Args[0].String() + " (" + e.Name + ")"
+						}
+					case "sync.(*Mutex).Unlock", "sync.(*RWMutex).Unlock":
+						delete(held, k) // a deferred unlock is replayed where it runs: at the end of the path
+					}
+				}
+				if e.Kind == "call" && e.Name == "dyn" && !e.Invoke {
+					calls++
+					for _, n := range held {
+						ok, why = false, "a function value ("+e.Callee.String()+") is called while "+n+" is held exclusively: a hook that publishes or unsubscribes on the same PubSub blocks for ever"
+					}
+				}
+			}
+		}
+		if calls == 0 {
+			continue
+		}
+		o := c.R.Decide(ok, rule, fi.Name, "calls", c.pos(fi), "function values are called with no exclusive lock held", why)
+		if !ok {
+			o.Breaks = "a publish from inside OnPubTimeout never returns; the pair (event, subscriber) ends in neither a delivery nor a hook call"
+		}
+	}
 }
 
 // ---- guarded-by ---------------------------------------------------------------
